@@ -59,6 +59,9 @@ def _compare(rec, tag, A, B, nworld):
   worst = "bit"
   order = {"bit": 0, "round": 1, "incon": 2, "viol": 3}
   for w in range(nworld):
+    if meta.gate(A["obs"]["overflow"], w, B["obs"]["overflow"], w):
+      rec.count("worlds_ungated_iteration_limit")
+      continue
     for c in (
       meta.compare_obs(rec, f"{tag} world {w}", A["obs"], B["obs"], w, w, sig_prefix=tag.split()[0] + ":"),
       meta.compare_contacts(rec, f"{tag} world {w}", A["con"][w], B["con"][w], sig_prefix=tag.split()[0] + ":"),
